@@ -151,7 +151,9 @@ func c09Scenarios(thorough bool) []*Scenario {
 				w.plugins["T1"].SetVerdict(rejectIf(func(f map[string]string) bool { return f["/cont/leafA"] == "bad" }, "leafA must not be bad"))
 			},
 			Prefix: []func(w *World) *Call{
-				func(w *World) *Call { return w.GoSet(bgCtx(), setReq("T1.leafA2=2", upd("T1", "/cont/leafA2", "2")).Set) },
+				func(w *World) *Call {
+					return w.GoSet(bgCtx(), setReq("T1.leafA2=2", upd("T1", "/cont/leafA2", "2")).Set)
+				},
 				func(w *World) *Call { return w.GoSet(bgCtx(), a("bad").Set) }},
 			Faults: []FaultSpec{faultConnUp("T1")}, FaultBudget: 1},
 		{Name: "S9 Set on T1, Set on T2, Set on T1 (non-consecutive indexes per target), offline", Cfg: WorldConfig{Targets: []string{"T1", "T2"}}, MaxStates: 150000,
